@@ -32,6 +32,7 @@ package main
 // in file order.
 
 import (
+	log "github.com/sirupsen/logrus"
 	"fmt"
 	"math"
 	"math/rand"
@@ -62,6 +63,9 @@ type c15DB struct {
 	kept  []int
 	krefs [][]byte
 	ktax  []int // resolved taxid (alias -> node; no attribute -> 1)
+	// glue pass: the obitag_ref_index attribute record i ALREADY carries when the data base is loaded (nil = no case word)
+	given []c15Given
+	gform int // Go type of the stored attribute: 0 map[int]string, 1 map[string]interface{}, 2 map[string]string
 }
 
 // resolve: the node a taxid attribute designates (0 = no attribute = root), -1 if unknown to the taxonomy
@@ -133,6 +137,9 @@ func (db *c15DB) records() obiseq.BioSequenceSlice {
 		if db.taxids[i] != 0 {
 			rs[i].SetTaxid(db.taxids[i])
 		}
+		if db.given != nil && !db.given[i].isNil {
+			c15SetStored(rs[i], db.given[i].m, db.gform+i)
+		}
 	}
 	return rs
 }
@@ -183,12 +190,15 @@ func c15ExecSetup(x *c15Ctx, op, base string, w []string) (string, []Fail) {
 	x.verb = true // only candidate orders are handed to the model
 	switch op {
 	case "cl1":
-		if len(w) != 6 {
+		if len(w) != 6 && len(w) != 7 {
 			return "bad-op", nil
 		}
 		queries, ok := c15ParseList(w[1])
 		db, ok2 := c15ParseDB(w[2], w[3], w[4], w[5])
 		if !ok || !ok2 || len(queries) == 0 {
+			return "bad-op", nil
+		}
+		if len(w) == 7 && !db.setGiven(w[6]) {
 			return "bad-op", nil
 		}
 		for _, q := range queries {
@@ -198,11 +208,14 @@ func c15ExecSetup(x *c15Ctx, op, base string, w []string) (string, []Fail) {
 		}
 		return c15ExecCL1(x, base, queries, db)
 	case "rx", "s2":
-		if len(w) != 5 {
+		if len(w) != 5 && !(op == "rx" && len(w) == 6) {
 			return "bad-op", nil
 		}
 		db, ok := c15ParseDB(w[1], w[2], w[3], w[4])
 		if !ok {
+			return "bad-op", nil
+		}
+		if len(w) == 6 && !db.setGiven(w[5]) {
 			return "bad-op", nil
 		}
 		if op == "rx" {
@@ -332,12 +345,29 @@ func c15ExecCL1(x *c15Ctx, base string, queries [][]byte, db *c15DB) (string, []
 		if lastDropped {
 			ptaxa[k] = nil // taxa[j], err = taxo.Taxon(..) of the dropped record, never overwritten
 		}
+		if db.given != nil { // the stored indices travel with the records
+			for p, i := range db.kept {
+				if !db.given[i].isNil {
+					c15SetStored(prs[p], db.given[i].m, 0)
+				}
+			}
+			c15SpinCount, c15Spin, c15HookOn = 0, false, true
+			log.SetLevel(log.DebugLevel)
+		}
 		pre := guardT(30*time.Second, func() string {
 			for i, q := range queries {
+				c15SpinCount = 0
 				obitag.Identify(c15Seq(fmt.Sprintf("q%d", i), q), prs, pcounts, ptaxa, db.tax, false)
 			}
 			return ""
 		})
+		if db.given != nil {
+			log.SetLevel(log.PanicLevel)
+			c15HookOn = false
+			if c15Spin {
+				pre = "hang" // the selection loop of Identify repeats itself on a trusted stored index
+			}
+		}
 		predicted = pre
 	}
 	rs := db.records()
@@ -407,15 +437,53 @@ func c15ExecCL1(x *c15Ctx, base string, queries [][]byte, db *c15DB) (string, []
 		return res, x.fails
 	}
 	checkKept()
+	// glue pass: obitag TRUSTS a stored index. The assignment oracle is the property only when every stored index of a
+	// kept record obeys the index statement on the kept list of THIS data base (the hypothesis of
+	// cli_assign_stored_lossless_partial); otherwise only the search part is checked and the model (which trusts
+	// the stored index as the code does) is the reference
+	stale := false
+	if db.given != nil {
+		for p, i := range db.kept {
+			if db.given[i].isNil {
+				continue
+			}
+			stat("cl1:stored-index-on-kept-record")
+			y := &c15Ctx{}
+			c15CheckIndex(y, "stored", db.given[i].m, rows[p], db.ktax, db.par, len(db.krefs[p]))
+			if len(y.fails) > 0 {
+				stale = true
+			}
+		}
+		if stale {
+			stat("cl1:stale-stored-index:assignment-oracle-not-applied")
+		} else {
+			stat("cl1:stored-indices-all-valid:assignment-oracle-applied")
+		}
+	}
 	for i, q := range queries {
 		s := got[fmt.Sprintf("q%d", i)]
 		bm, _ := s.GetStringAttribute("obitag_bestmatch")
 		bmFile, _ := strconv.Atoi(c15IdxOf(bm))
 		cnt, _ := s.GetIntAttribute("obitag_match_count")
 		bestid, _ := s.GetFloatAttribute("obitag_bestid")
+		if stale {
+			y := &c15Ctx{}
+			c15CheckAssigned(y, "cl1", db, q, qps[i], rows, s.Taxid(), bmFile, cnt, bestid)
+			for _, f := range y.fails {
+				if strings.HasPrefix(f.Sig, "cl1.assigned-") {
+					stat("cl1:stale-stored-index:" + strings.TrimPrefix(f.Sig, "cl1.") + " (trusted, not a failure)")
+				} else {
+					x.addf(f.Sig, "%s", f.Text)
+				}
+			}
+			continue
+		}
 		c15CheckAssigned(x, "cl1", db, q, qps[i], rows, s.Taxid(), bmFile, cnt, bestid)
 	}
-	for p := range db.kept { // the indices built lazily by Identify, on the arrays of the set-up
+	for p, i := range db.kept { // the indices built lazily by Identify, on the arrays of the set-up
+		if db.given != nil && !db.given[i].isNil {
+			continue // a stored index is left as it is
+		}
 		if idx := rs[p].OBITagRefIndex(); idx != nil {
 			stat("cl1:lazy-index-checked")
 			c15CheckIndex(x, "cl1.index", idx, rows[p], db.ktax, db.par, len(db.krefs[p]))
@@ -436,6 +504,19 @@ func c15Quiet(f func()) {
 func c15ExecRX(x *c15Ctx, base string, db *c15DB) (string, []Fail) {
 	stat("op:rx")
 	db.stats("rx")
+	if db.given != nil {
+		all := len(db.kept) > 0
+		for _, i := range db.kept {
+			if db.given[i].isNil {
+				all = false
+			}
+		}
+		if all {
+			stat("rx:every-kept-record-already-indexed")
+		} else {
+			stat("rx:some-records-already-indexed")
+		}
+	}
 	aug := base
 	rows := make([][]c15Pair, len(db.krefs))
 	for b := range db.krefs {
@@ -859,4 +940,5 @@ func c15GenSetup(tier string, emit func(string)) {
 			emit(fmt.Sprintf("fw %s %s %s %s %s", c15List(refs), c15Ints(tx), c15Taxo(t), al, strings.Join(ms, ",")))
 		}
 	}
+	c15GenStored(tier, emit)
 }
